@@ -112,13 +112,16 @@ def _its_to_torch(
         edge_feature_transform = _default_edge_feature_trans_its2torch
 
     node_attrs = []
+    node_index = {}
     for u, d in its.nodes(data=True):
         node_attr = node_feature_transform(d)
+        node_index[u] = len(node_attrs)
         node_attrs.append(node_attr)
     x = torch.tensor(node_attrs)
     edge_attrs = []
     edge_indices = []
     for u, v, d in its.edges(data=True):
+        u, v = node_index[u], node_index[v]
         edge_indices.extend([[u, v], [v, u]])
         edge_attr = edge_feature_transform(d)
         edge_attrs.extend([edge_attr, edge_attr])
